@@ -439,9 +439,10 @@ def harnesses(tier, seed):
 
     def b_integrals(ctx):
         x = ctx.choose([a for a in inc if len(a) >= 2], "x")
-        img = ctx.choose([1.0, 0.5, 0.1], "scale")
+        img = ctx.choose([1.0, 0.5, 0.1, "tiny", "jitter"], "scale")
+        xi = A.ximage(x, img) if isinstance(img, str) else [v * img for v in x]
         for y in (itertools.product(A.VPM, repeat=len(x)) if len(x) <= 4 else A.spanning_values(len(x))):
-            judge(ctx, check_integrals, {"x": [v * img for v in x], "y": list(y)}, calls=5, bulk=True)
+            judge(ctx, check_integrals, {"x": xi, "y": list(y)}, calls=5, bulk=True)
 
     def b_interval_history(ctx):
         L = ctx.choose([5, 8, 9, 12], "L")
